@@ -48,17 +48,12 @@ def run_family(ctx, scens, budget_per, name, sig=None):
         shared |= h.learn(s, rnd)
     h.shared = shared
     ctx.extra["shared_attributes_learned"] = sorted(shared)
-    worlds, ws = [], []
-    steps = 0
-    for s in scens:
-        for w in poolsim.explore(h, s, rnd, budget_per, ctx):
-            worlds.append(w)
-            ws.append(s)
-            steps += w.steps
+    worlds, ws = poolsim.explore_all(h, scens, ctx.seed * 7919 + 1, budget_per, ctx)
     ctx.extra["judge_override"] = scens[0]["judge"]
     kw, ks = poolsim.known_replays(h, ctx)
-    worlds += kw
+    worlds += [poolsim.Rec(w) for w in kw]
     ws += ks
+    steps = sum(w.steps for w in worlds)
     outcomes = {}
     for w in worlds:
         outcomes[w.outcome] = outcomes.get(w.outcome, 0) + 1
@@ -86,4 +81,4 @@ def run(ctx):
     poolconf.design_legs(ctx, configs, ['CallOK', 'NoBad', 'NoLeftovers'], False, ['CallOK'], hconf, crnd, 30 if quick else 300, 30 if quick else 300, JUDGE)
     rnd = random.Random(ctx.seed * 7919 + 101)
     scens = scenarios(rnd, quick, JUDGE)
-    run_family(ctx, scens, 150 if quick else 3000, "C01")
+    run_family(ctx, scens, 400 if quick else 15000, "C01")
